@@ -292,6 +292,6 @@ GROUP = Group(
     ],
     trusted=['pyvc/models/bytesmodel.py (fixed-length byte / hex strings as bit-vector lists)'],
     not_covered=['the WRMHEADER XML text (Jinja template; generate_wrmheader is proved up to the context it hands to the '
-                 'template: default key id / key / checksum, per-key list, template name) and its re-parse, generate_pro / parse_pro framing, ClearKey endpoint, '
+                 'template: default key id / key / checksum, per-key list, template name) and its XML re-parse, ClearKey endpoint, '
                  'ContentProtection templates, generate_manifest_context location mapping'],
 )
